@@ -29,6 +29,9 @@ type crashCase struct {
 	// Via: "decoder" uses NewDecoder+options, "string" NewDocumentFromString
 	// (only meaningful with both options off).
 	Via string `json:"via,omitempty"`
+	// FailAt > 0 with Via "failing-reader": the reader delivers this many bytes and then fails
+	// with an error that is not io.EOF
+	FailAt int `json:"fail_at,omitempty"`
 }
 
 var lineNo = regexp.MustCompile(`line (\d+)`)
@@ -39,6 +42,8 @@ func trunc(s string) string {
 	}
 	return s
 }
+
+var errInjected = fmt.Errorf("injected read failure")
 
 func check(c crashCase) (fl *harness.Failure, outcome string) {
 	data := string(c.Data)
@@ -63,6 +68,12 @@ func check(c crashCase) (fl *harness.Failure, outcome string) {
 			r = iotest.HalfReader(r)
 		case "data-err-reader":
 			r = iotest.DataErrReader(r) // the last bytes arrive together with io.EOF
+		case "failing-reader":
+			n := c.FailAt
+			if n > len(data) {
+				n = len(data)
+			}
+			r = io.MultiReader(strings.NewReader(data[:n]), iotest.ErrReader(errInjected))
 		}
 		dec := gedcom.NewDecoder(r)
 		dec.AllowMultiLine, dec.AllowInvalidIndents = c.MultiLine, c.InvalidInds
@@ -77,6 +88,14 @@ func check(c crashCase) (fl *harness.Failure, outcome string) {
 			sig = sig[:60]
 		}
 		return harness.Failf(strings.TrimSpace(sig), "decoder panics (%s) on %q [multiline=%v invalid-indents=%v]", pval, trunc(data), c.MultiLine, c.InvalidInds), "panic"
+	}
+	if c.Via == "failing-reader" {
+		// a stream that breaks off with a read error: the decoder must still return (no
+		// panic) exactly one of a document and an error; what the error says is not judged
+		if (doc == nil) == (err == nil) {
+			return harness.Failf("doc-and-error", "Decode returned document=%v and error=%v when the reader failed after %d bytes of %q", doc != nil, err, c.FailAt, trunc(data)), "bad"
+		}
+		return nil, "failing-reader"
 	}
 	if (doc == nil) == (err == nil) {
 		return harness.Failf("doc-and-error", "Decode returned document=%v and error=%v for %q", doc != nil, err, trunc(data)), "bad"
@@ -130,6 +149,13 @@ var adversarial = []string{
 	"0 NOTE\n1 CONT\n1 CONC\n", "0 SEX M\n1 X y\n", "0 DATE\n", "0 _UID\n", "0 NAME /\n", "0 NAME //\n", "0 PLAC ,,,\n",
 	"0 @F1@ FAM\n0 @F1@ FAM\n1 CHIL @F1@\n", "0 @I1@ INDI\n0 @I1@ FAM\n1 HUSB @I1@\n1 WIFE @I1@\n1 CHIL @I1@\n",
 	"0 A\n1 HUSB x\n", "9 HUSB\n", "1 CHIL\n", "2 WIFE\n0 @F@ FAM\n",
+	// long lines in scripts whose letters take two, three and four bytes (bytes and characters
+	// count differently), a long ASCII line, and a line of bytes that are not UTF-8
+	"0 @I1@ INDI\n1 NAME Константин Константинович /Рокоссовский-Константинопольский/\n1 SEX M\n",
+	"0 HEAD\n1 NOTE 李王張劉陳楊黃趙吳周徐孫馬朱胡郭何高林羅鄭梁謝宋唐許韓馮鄧曹\n0 TRLR\n",
+	"0 NOTE 𝔘𝔫𝔦𝔠𝔬𝔡𝔢 𝔣𝔯𝔞𝔨𝔱𝔲𝔯 𝔩𝔢𝔱𝔱𝔢𝔯𝔰 𝔱𝔞𝔨𝔢 𝔣𝔬𝔲𝔯 𝔟𝔶𝔱𝔢𝔰 𝔢𝔞𝔠𝔥\n",
+	"0 NOTE a perfectly ordinary line of plain letters that is longer than eighty characters in total\n",
+	"0 NOTE \xff\xfe\xfd\xfc\xfb\xfa\xf9\xf8\xff\xfe\xfd\xfc\xfb\xfa\xf9\xf8\xff\xfe\xfd\xfc\xfb\xfa\xf9\xf8\xff\xfe\xfd\xfc\xfb\xfa\xf9\xf8\xff\xfe\xfd\xfc\xfb\xfa\xf9\xf8\xff\xfe\xfd\xfc\xfb\xfa\xf9\xf8\n",
 }
 
 func genData() *rapid.Generator[string] {
@@ -193,7 +219,7 @@ func genData() *rapid.Generator[string] {
 
 func TestCheckNoCrash(t *testing.T) {
 	s := harness.NewSub("generated-streams",
-		"byte streams from 10 classes (uniform bytes <= 4096, GEDCOM-alphabet bytes, structured text truncated at a random offset, byte-mutated structured text, adversarial constants from the quantifier (first line above level 0, role lines before/outside families, nested records, empty values, NUL, BOM fragments) alone/concatenated/mutated, role and record lines at random levels, 1 MB lines, 3000-level nesting, random unicode) x AllowMultiLine x AllowInvalidIndents, plus NewDocumentFromString; the decoder reads from a plain reader or (three fifths) from one that hands over one byte at a time, half of what is asked for, or the last bytes together with io.EOF; non-trivial = every distinct (input, options); outcome classes in the histogram")
+		"byte streams from 10 classes (uniform bytes <= 4096, GEDCOM-alphabet bytes, structured text truncated at a random offset, byte-mutated structured text, adversarial constants from the quantifier (first line above level 0, role lines before/outside families, nested records, empty values, NUL, BOM fragments) alone/concatenated/mutated, role and record lines at random levels, 1 MB lines, 3000-level nesting, random unicode) x AllowMultiLine x AllowInvalidIndents, plus NewDocumentFromString; the decoder reads from a plain reader or (three fifths) from one that hands over one byte at a time, half of what is asked for, or the last bytes together with io.EOF; a ninth of the streams break off with a read error at a byte offset derived from the input (no panic, exactly one of document and error); non-trivial = every distinct (input, options); outcome classes in the histogram")
 	s.Rapid(t, harness.Share(harness.Pick(60000, 3000000)), 30, func(rt *rapid.T) {
 		data := genData().Draw(rt, "data")
 		via := rapid.SampledFrom([]string{"", "", "one-byte-reader", "half-reader", "data-err-reader"}).Draw(rt, "via")
@@ -201,6 +227,10 @@ func TestCheckNoCrash(t *testing.T) {
 			c := crashCase{Data: gen.Str(data), MultiLine: o&1 != 0, InvalidInds: o&2 != 0, Via: via}
 			if o == 4 {
 				c = crashCase{Data: gen.Str(data), Via: "string"}
+			}
+			if o < 4 && via == "" && len(data) > 0 && len(data)%3 == 0 {
+				// (a third of the plain-reader cases: the reader fails somewhere in the stream)
+				c.Via, c.FailAt = "failing-reader", 1+(len(data)*7+o*13)%len(data)
 			}
 			s.Crumb(c)
 			fl, outcome := check(c)
@@ -218,7 +248,7 @@ func TestCheckNoCrash(t *testing.T) {
 
 // every adversarial constant, every truncation of it, under every option set
 func TestCheckAdversarialExhaustive(t *testing.T) {
-	s := harness.NewSub("adversarial-truncations", "every prefix of every adversarial constant x 4 option combinations (exhaustive); all distinct by construction")
+	s := harness.NewSub("adversarial-truncations", "every prefix of every adversarial constant (incl. long lines of two-, three- and four-byte letters and of invalid UTF-8) x 4 option combinations, each once as the whole stream and once as what a reader delivers before it fails with an error (exhaustive); all distinct by construction")
 	s.SetExhaustive(true)
 	if harness.Shard() != 0 {
 		return
@@ -234,6 +264,15 @@ func TestCheckAdversarialExhaustive(t *testing.T) {
 				}
 				if fl != nil {
 					s.Report(c, fl)
+				}
+				// the same prefix when the stream does not end there but breaks off with a read error
+				if cut < len(a) {
+					cf := crashCase{Data: gen.Str(a), MultiLine: o&1 != 0, InvalidInds: o&2 != 0, Via: "failing-reader", FailAt: cut}
+					fl, outcome := check(cf)
+					s.EvalN(1, 1, "outcome:"+outcome)
+					if fl != nil {
+						s.Report(cf, fl)
+					}
 				}
 			}
 		}
